@@ -345,7 +345,17 @@ class Interp:
             if isinstance(it, (Opaque,)):
                 raise Undecided("iteration over opaque")
             broke = False
-            for v in list(it):
+
+            def live(seq):
+                # Python iterates a list by index over the LIVE object: removals and appends during the loop count
+                if isinstance(seq, list):
+                    i = 0
+                    while i < len(seq):
+                        yield seq[i]
+                        i += 1
+                else:
+                    yield from list(seq)
+            for v in live(it):
                 self.assign(st.target, v, env)
                 try:
                     self.exec_block(st.body, env)
@@ -1388,10 +1398,19 @@ class BVEq:
 # ---------------------------------------------------------------------------
 
 class Affine:
-    def __init__(self, a, b=0, truncated=False):
+    """a*x + b over the rationals (the algebraic content), and - when built from Affine.var() - `fn`: the SAME
+    computation as a float program (every operation in source order on IEEE doubles), for exhaustive
+    evaluation over a finite set of inputs"""
+
+    def __init__(self, a, b=0, truncated=False, fn=None):
         self.a = Fraction(a)
         self.b = Fraction(b)
         self.truncated = truncated
+        self.fn = fn
+
+    @staticmethod
+    def var():
+        return Affine(1, 0, False, lambda x: x)
 
     @staticmethod
     def lift(v):
@@ -1400,20 +1419,27 @@ class Affine:
         if isinstance(v, bool):
             raise Undecided("bool in affine arithmetic")
         if isinstance(v, int):
-            return Affine(0, v)
+            return Affine(0, v, False, lambda x, v=v: v)
         if isinstance(v, float):
-            return Affine(0, Fraction(repr(v)))
+            return Affine(0, Fraction(repr(v)), False, lambda x, v=v: v)
         raise Undecided(f"cannot lift {type(v).__name__} to affine")
+
+    @staticmethod
+    def _fn2(f, g, op):
+        if f is None or g is None:
+            return None
+        return lambda x: op(f(x), g(x))
 
     def __add__(self, o):
         o = Affine.lift(o)
-        return Affine(self.a + o.a, self.b + o.b, self.truncated or o.truncated)
+        return Affine(self.a + o.a, self.b + o.b, self.truncated or o.truncated, Affine._fn2(self.fn, o.fn, lambda p, q: p + q))
 
-    __radd__ = __add__
+    def __radd__(self, o):
+        return Affine.lift(o) + self
 
     def __sub__(self, o):
         o = Affine.lift(o)
-        return Affine(self.a - o.a, self.b - o.b, self.truncated or o.truncated)
+        return Affine(self.a - o.a, self.b - o.b, self.truncated or o.truncated, Affine._fn2(self.fn, o.fn, lambda p, q: p - q))
 
     def __rsub__(self, o):
         return Affine.lift(o) - self
@@ -1422,11 +1448,13 @@ class Affine:
         o = Affine.lift(o)
         if self.a != 0 and o.a != 0:
             raise Undecided("non-linear product")
+        fn = Affine._fn2(self.fn, o.fn, lambda p, q: p * q)
         if o.a == 0:
-            return Affine(self.a * o.b, self.b * o.b, self.truncated or o.truncated)
-        return Affine(o.a * self.b, o.b * self.b, self.truncated or o.truncated)
+            return Affine(self.a * o.b, self.b * o.b, self.truncated or o.truncated, fn)
+        return Affine(o.a * self.b, o.b * self.b, self.truncated or o.truncated, fn)
 
-    __rmul__ = __mul__
+    def __rmul__(self, o):
+        return Affine.lift(o) * self
 
     def __truediv__(self, o):
         o = Affine.lift(o)
@@ -1434,16 +1462,19 @@ class Affine:
             raise Undecided("division by symbolic value")
         if o.b == 0:
             raise PyRaise("ZeroDivisionError")
-        return Affine(self.a / o.b, self.b / o.b, self.truncated or o.truncated)
+        return Affine(self.a / o.b, self.b / o.b, self.truncated or o.truncated, Affine._fn2(self.fn, o.fn, lambda p, q: p / q))
+
+    def __rtruediv__(self, o):
+        raise Undecided("division by symbolic value")
 
     def __neg__(self):
-        return Affine(-self.a, -self.b, self.truncated)
+        return Affine(-self.a, -self.b, self.truncated, (lambda x, f=self.fn: -f(x)) if self.fn else None)
 
     def conv_float(self):
-        return self
+        return Affine(self.a, self.b, self.truncated, (lambda x, f=self.fn: float(f(x))) if self.fn else None)
 
     def conv_int(self):
-        return Affine(self.a, self.b, True)
+        return Affine(self.a, self.b, True, (lambda x, f=self.fn: int(f(x))) if self.fn else None)
 
     def __bool__(self):
         raise Undecided("truth of affine value")
